@@ -48,6 +48,7 @@ type Contract struct {
 	BefCall  []CExpr
 	HavocCalls []string
 	FrameCalls []string
+	AppendLike []string
 	BefRet   []CExpr
 	Assigns  []CExpr
 	NonNil   []CExpr
@@ -742,6 +743,11 @@ func (w *World) resolve(c *Contract, si *sigInfo) error {
 				return fmt.Errorf("%s:%d: missing: no call %q in %s", b.File, d.Line, d.CallText, b.Key())
 			}
 			c.HavocCalls = append(c.HavocCalls, d.CallText)
+		case "appendlike":
+			if len(w.callSites(c, d)) == 0 {
+				return fmt.Errorf("%s:%d: missing: no call %q in %s", b.File, d.Line, d.CallText, b.Key())
+			}
+			c.AppendLike = append(c.AppendLike, d.CallText)
 		case "framecall":
 			if len(w.callSites(c, d)) == 0 {
 				return fmt.Errorf("%s:%d: missing: no call %q in %s", b.File, d.Line, d.CallText, b.Key())
